@@ -3,6 +3,7 @@ use crate::engine::Prop;
 pub mod behav;
 pub mod c05;
 pub mod c06;
+pub mod c07;
 pub mod c08;
 pub mod c09;
 pub mod c12;
@@ -13,7 +14,7 @@ pub mod fmt_common;
 pub mod run_common;
 
 pub fn all() -> Vec<&'static dyn Prop> {
-  vec![&behav::C01, &behav::C03, &behav::C04, &c05::C05, &c06::C06, &c08::C08, &c09::C09, &c12::C12, &c13::C13, &c14::C14, &c17::C17]
+  vec![&behav::C01, &behav::C03, &behav::C04, &c05::C05, &c06::C06, &c07::C07, &c08::C08, &c09::C09, &c12::C12, &c13::C13, &c14::C14, &c17::C17]
 }
 
 pub fn by_id(id: &str) -> Option<&'static dyn Prop> {
